@@ -60,6 +60,7 @@ def c30(ctx):
                  "complete real nodes: every common solicitation is matched exactly once on both ends with the same stream, nothing else is; non-trivial = a solicitation "
                  "added after the link exists, or a removal")
     exchange(ctx)
+    sline(ctx)
 
 
 def exchange(ctx):
@@ -115,6 +116,44 @@ def exchange(ctx):
                 ctx.violation("C30:exchange:%s" % b[1][:70], "%s (solicitation %s; history %s)" % (b[1], b[2], [(s["a"], s["s"], s["x"], s["w"]) for s in h] if h else "?"), {"history": h})
         else:
             raise vlib.Infra("SolicitExchangeMon did not consume the trace\n" + r.out[-2000:])
+
+
+def sline(ctx):
+    """SolicitLine.tla: three complete real nodes a - b - c, one protocol solicited by all: node b's solicitation is live on two links
+    (different session ids); all 120 orders of the two link-ups and the three solicitations"""
+    r = ctx.tlc("SolicitLine", cfg="MC_SolicitLine.cfg", timeout=600, count=False)
+    hs = sorted({m.group(1).encode().decode("unicode_escape") for m in re.finditer(r'<<"HIST", "(.*)">>', r.out)})
+    if len(hs) != 120:
+        raise vlib.Infra("SolicitLine: %d histories, expected 120" % len(hs))
+    behs = [json.loads(h) for h in hs]
+    bpath = os.path.join(ctx.tmp, "sline_behaviours.json")
+    json.dump(behs, open(bpath, "w"))
+    tpath = os.path.join(ctx.tmp, "sline_trace.ndjson")
+    ctx.go_run("twonode", ["-mode", "solicitline", "-cases", bpath, "-out", tpath], timeout=3000)
+    rows = vlib.read_ndjson(tpath)
+    finals = [x for x in rows if x["e"] == "final"]
+    if len(finals) != len(behs):
+        raise vlib.Infra("twonode solicitline: traces missing")
+    ctx.traces += len(behs)
+    ctx.evaluations += len(finals)
+    ctx.cov["three_node_solicit_histories"] = len(behs)
+    for h in behs:
+        ctx.nontrivial.add("sline:" + json.dumps(h))
+    ok, r = ctx.tlc_validate("SolicitLineMon", "SolicitLineMon.cfg", tpath, env={"PROP": "C30"}, dfs=False, timeout=900)
+    if not ok:
+        if r.violated == "NoViolation":
+            tail = r.out[r.out.rfind("/\\ bad ="):]
+            bads = re.findall(r'<<\s*"(C\d+)",\s*"([^"]*)",\s*(-?\d+)\s*>>', tail, re.S)
+            seen = set()
+            for b in bads:
+                if b[1] in seen:
+                    continue
+                seen.add(b[1])
+                k = int(b[2])
+                h = behs[k] if 0 <= k < len(behs) else None
+                ctx.violation("C30:line:%s" % b[1][:60], "%s (history %s; observed %s)" % (b[1], [(s["a"], s["n"] or "-".join(s["e"])) for s in h] if h else "?", finals[k] if h else "?"), {"history": h})
+        else:
+            raise vlib.Infra("SolicitLineMon did not consume the trace\n" + r.out[-2000:])
 
 
 def c31(ctx):
